@@ -99,7 +99,8 @@ SameMp(dv, v) ==
     [] v.t = "o" -> dv.t = "o" /\ Len(dv.c) = Len(v.c)
                     /\ \A j \in 1..Len(v.c) : dv.c[j].b = v.c[j].b /\ SameMp(dv.c[j].c[1], v.c[j].c[1])
 
-\* buffer law: caps = <<[cap, ret, prefix, nul, guard]>>
+\* buffer law: caps = <<[cap, ret, prefix, nul, guard, dst]>>; dst names the destination kind
+\* ("ptr" = pointer+size, "char[N]" etc. = the fixed-size array overloads with N = cap): one law for all
 BufferLaw(caps, len, text) ==
   \A j \in 1..Len(caps) :
     LET k == caps[j]
@@ -108,6 +109,20 @@ BufferLaw(caps, len, text) ==
     /\ k.prefix                  \* exactly the first min(cap, len) bytes of the unbounded output
     /\ k.guard                   \* nothing outside the buffer
     /\ (text => (k.nul <=> len < k.cap))
+
+\* one floating-point value in MessagePack: [k (4 or 8 bytes stored), enc ("f32", "f64", "int", "bad"),
+\* same (the encoding denotes exactly the value; for floats bit-exact), integral, f32 (exactly a float32),
+\* i64, u64 (integral and inside the signed / unsigned 64-bit range)]
+\*   - values that are not integral are written as float32 or float64, bit-exact;
+\*   - integral float32 values of the signed 64-bit range are written as integers (the shortcut the
+\*     serializer takes for every value that narrows to float32);
+\*   - the other integral values (doubles with more than 24 significant bits, [2^63, 2^64)) may come out
+\*     either way: the library keeps them as floats, bit-exact, and an integer would denote the same value
+FloatEncoding(e) ==
+  /\ e.enc \in {"f32", "f64", "int"}
+  /\ e.same
+  /\ (e.enc = "int" => e.integral /\ (e.i64 \/ e.u64))
+  /\ (e.i64 /\ e.f32 => e.enc = "int")
 
 Doc(ev) ==
   LET json == ev.json
@@ -134,7 +149,8 @@ Doc(ev) ==
      LET dm == DecodeMsgPack(ev.mp, 255, TrueV) IN
      /\ Require(M => (dm.code = "Ok" /\ dm.read = Len(ev.mp)), "MessagePack output is not exactly one well-formed object")
      /\ Require(M => SameMp(dm.v, ev.v), "MessagePack output does not denote the document")
-     /\ Require(ev.fenc, "a floating-point value is neither bit-exact float32/float64 nor an integer encoding of the same integral value")
+     /\ Require(\A j \in 1..Len(ev.fenc) : FloatEncoding(ev.fenc[j]),
+                "a floating-point value is neither bit-exact float32/float64 nor the integer encoding of the same integral value")
      /\ Require(ev.mpkinds, "a destination kind received different MessagePack bytes or returned a different count")
      /\ Require(ev.mpcount = Len(ev.mp) /\ ev.mpmeasure = Len(ev.mp), "serializeMsgPack count / measureMsgPack differ")
      /\ Require(BufferLaw(ev.mpcaps, Len(ev.mp), FALSE), "MessagePack buffer law violated"))
